@@ -1,6 +1,391 @@
-/- C17 — model not written yet (stub so that the driver target exists). -/
-namespace Nitime.C17
+/-
+C17 — model of `nitime.timeseries.UniformTime` under in-place operations, slicing, copying and
+unit relabelling (core Lean only).
 
-def handle (_args : List String) : String := "bad-op"
+Concrete state (`State`): an object store holding the 0-d time objects that serve as attributes
+(`t0`, `sampling_interval`, `duration`; ids = positions in the store), the axis operated on
+(`cur`: its int64 samples in picoseconds, unit, attribute *ids*, and the immutable `Frequency`
+value), and the originals of earlier copies (`kept`) that the caller still holds.
+Abstract state (`Abs`): `(t0, Δ, n, unit)`.
+
+Follows the source:
+* `_convert_and_check_uniformity`  → `convScalar`, `convRamp`, `rampStep`
+* `__iadd__/__isub__/__imul__/__idiv__` → `step` cases `addS … div`
+* `__getitem__` with a slice + `__array_finalize__` → `sliceIndices`, `step (.slice …)`
+* `ndarray.copy` + `__array_finalize__` → `step .copy`
+* `UniformTime(axis, time_unit=u)` → `step (.convert u)`   (the only unit conversion the class has)
+* `__setitem__` → refused
+* `index_at` → `indexAt`
+* attribute refresh `_set_sampling` → `setSampling`;  `Frequency(1.0/(float(Δ)/f), unit)` → `rateOf`
+
+`Cfg` switches select, branch by branch, the behaviour of the unrepaired source (`current`) or
+the intended/repaired one (`fixed`).  Theorems are about `fixed`; `current` is used for the
+counterexample theorems and is also run against the implementation.
+Not modelled: the sample *buffer* sharing between a slice (a numpy view) and its parent — the
+parent of a slice is dropped from the state.
+-/
+import Nitime.Model.F64
+import Nitime.Model.Units
+import Nitime.Model.Proto
+import Nitime.Generated.Units
+
+namespace Nitime.C17
+open Nitime
+
+/-! ### configuration: which of today's defects are switched on -/
+structure Cfg where
+  /-- `+=`/`-=` leave `t0` and `duration` as they were -/
+  staleShift : Bool
+  /-- `-= ramp` adds the ramp's step to the interval -/
+  subAddsStep : Bool
+  /-- `*=` leaves `t0` and `duration` as they were (and `*= 0` is carried out before failing) -/
+  mulStale : Bool
+  /-- `/=` calls the non-existent `ndarray.__idiv__` -/
+  noIdiv : Bool
+  /-- slices keep the parent's `t0`, interval, duration, rate -/
+  sliceInherit : Bool
+  /-- views and copies share the parent's attribute objects, and `+= ramp`, `*=` update the
+  interval object in place -/
+  shareAttrs : Bool
+  /-- the interval is updated before numpy has checked the operand's shape -/
+  earlyUpdate : Bool
+  deriving Repr, DecidableEq
+
+def fixed : Cfg := ⟨false, false, false, false, false, false, false⟩
+def current : Cfg := ⟨true, true, true, true, true, true, true⟩
+
+/-! ### object store -/
+abbrev ObjId := Nat
+
+def sget (s : List Int) (i : ObjId) : Int := s.getD i 0
+/-- a new 0-d time object -/
+def salloc (s : List Int) (v : Int) : List Int × ObjId := (s ++ [v], s.length)
+
+structure Axis where
+  samples : List Int
+  unit : TimeUnit
+  t0 : ObjId
+  dt : ObjId
+  dur : ObjId
+  /-- `sampling_rate` (a `Frequency`, immutable): exact value of the binary64 number -/
+  rate : Rat
+  deriving Repr, DecidableEq
+
+structure State where
+  store : List Int
+  cur : Axis
+  kept : List Axis
+  deriving Repr, DecidableEq
+
+inductive Err where
+  | valueError | indexError | attributeError | zeroDivisionError
+  deriving Repr, DecidableEq
+
+def Err.name : Err → String
+  | .valueError => "ValueError" | .indexError => "IndexError"
+  | .attributeError => "AttributeError" | .zeroDivisionError => "ZeroDivisionError"
+
+/-! ### operands and operations -/
+/-- a 0-d operand: a python/numpy integer read in the axis' unit, or a time object (ps) -/
+inductive Scalar where
+  | int (k : Int)
+  | time (ps : Int)
+  deriving Repr, DecidableEq
+
+/-- a 1-d operand: integers read in the axis' unit, or a time object (ps) -/
+inductive Ramp where
+  | ints (xs : List Int)
+  | time (ps : List Int)
+  deriving Repr, DecidableEq
+
+inductive Op where
+  | addS (v : Scalar) | subS (v : Scalar)
+  | addR (r : Ramp) | subR (r : Ramp)
+  | mul (k : Int) | div (k : Int)
+  | slice (a b : Option Int) (c : Int)
+  | copy
+  | convert (u : TimeUnit)
+  | setitem
+  deriving Repr, DecidableEq
+
+def factorOf (u : TimeUnit) : Int := (Generated.factor u : Int)
+
+def convScalar (u : TimeUnit) : Scalar → Int
+  | .int k => k * factorOf u
+  | .time ps => ps
+
+def convRamp (u : TimeUnit) : Ramp → List Int
+  | .ints xs => xs.map (· * factorOf u)
+  | .time ps => ps
+
+/-- `n` instants from `t0` every `dt` -/
+def affine (t0 dt : Int) (n : Nat) : List Int := (List.range n).map fun (i : Nat) => t0 + (i : Int) * dt
+
+/-- `np.diff` -/
+def diff : List Int → List Int
+  | a :: b :: rest => (b - a) :: diff (b :: rest)
+  | _ => []
+
+/-- the check in `_convert_and_check_uniformity`: `dv[0]` (IndexError when there is none), then
+every difference must equal it -/
+def rampStep (vals : List Int) : Except Err Int :=
+  match diff vals with
+  | [] => .error .indexError
+  | d :: ds => if ds.all (· == d) then .ok d else .error .valueError
+
+/-- `Frequency(1.0 / (float(Δ) / tuc[unit]), time_unit=unit)` in exact binary64 -/
+def rateOf (u : TimeUnit) (dt : Int) : Rat :=
+  let f := F64.ofInt (factorOf u)
+  F64.fmul (F64.fdiv 1 (F64.fdiv (F64.ofInt dt) f)) (F64.fdiv (F64.ofInt 1000000000000) f)
+
+/-- `_set_sampling`: new attribute objects describing `samples` as `n` points from `t0` every `dt` -/
+def setSampling (store : List Int) (samples : List Int) (u : TimeUnit) (oldRate : Rat)
+    (t0 dt : Int) : List Int × Axis :=
+  let i := store.length
+  (store ++ [t0, dt, (samples.length : Int) * dt],
+   { samples := samples, unit := u, t0 := i, dt := i + 1, dur := i + 2,
+     rate := if dt = 0 then oldRate else rateOf u dt })
+
+/-- CPython `PySlice_AdjustIndices` for one bound -/
+def adjust (n : Int) (neg : Bool) (x : Int) : Int :=
+  if x < 0 then (if x + n < 0 then (if neg then -1 else 0) else x + n)
+  else if x ≥ n then (if neg then n - 1 else n) else x
+
+/-- `slice(a, b, c).indices(n)` and the number of selected positions (c ≠ 0) -/
+def sliceIndices (n : Nat) (a b : Option Int) (c : Int) : Int × Int × Nat :=
+  let neg := decide (c < 0)
+  let start := match a with
+    | none => if neg then (n : Int) - 1 else 0
+    | some x => adjust n neg x
+  let stop := match b with
+    | none => if neg then -1 else (n : Int)
+    | some x => adjust n neg x
+  let cnt : Int :=
+    if neg then (if stop < start then (start - stop - 1) / (-c) + 1 else 0)
+    else (if start < stop then (stop - start - 1) / c + 1 else 0)
+  (start, stop, cnt.toNat)
+
+def sliceSamples (xs : List Int) (start c : Int) (cnt : Nat) : List Int :=
+  (List.range cnt).map fun (j : Nat) => xs.getD (start + (j : Int) * c).toNat 0
+
+/-- attributes as `__array_finalize__` hands them to a view / copy -/
+def inheritAttrs (cfg : Cfg) (store : List Int) (p : Axis) (samples : List Int) : List Int × Axis :=
+  if cfg.shareAttrs then (store, { p with samples := samples })
+  else
+    let i := store.length
+    (store ++ [sget store p.t0, sget store p.dt, sget store p.dur],
+     { p with samples := samples, t0 := i, dt := i + 1, dur := i + 2 })
+
+/-- shift / ramp addition (`sgn = 1`) or subtraction (`sgn = -1`) -/
+def shiftOp (cfg : Cfg) (s : State) (sgn : Int) (vals : Option (List Int)) (v0 d : Int) :
+    State × Option Err :=
+  let ax := s.cur
+  let t0 := sget s.store ax.t0
+  let dt := sget s.store ax.dt
+  -- interval change as the source computes it
+  let dd := if cfg.subAddsStep then d else sgn * d
+  let fits := match vals with
+    | none => true
+    | some vs => vs.length == ax.samples.length
+  let newSamples := match vals with
+    | none => ax.samples.map (· + sgn * v0)
+    | some vs => List.zipWith (fun x v => x + sgn * v) ax.samples vs
+  if cfg.staleShift then
+    -- unrepaired: only the interval object and the rate are touched, and only for 1-d operands
+    match vals with
+    | none => ({ s with cur := { ax with samples := newSamples } }, none)
+    | some _ =>
+      let dt' := dt + dd
+      let (store', ax0) :=
+        if cfg.shareAttrs then (s.store.set ax.dt dt', ax)
+        else (s.store ++ [dt'], { ax with dt := s.store.length })
+      -- `1.0 / (float(interval) / …)` after the interval has been updated
+      if dt' = 0 then ({ s with store := store', cur := ax0 }, some .zeroDivisionError) else
+      let ax' := { ax0 with rate := rateOf ax.unit dt' }
+      if fits then ({ s with store := store', cur := { ax' with samples := newSamples } }, none)
+      else if cfg.earlyUpdate then ({ s with store := store', cur := ax' }, some .valueError)
+      else (s, some .valueError)
+  else
+    if fits then
+      let (store', ax') := setSampling s.store newSamples ax.unit ax.rate (t0 + sgn * v0) (dt + dd)
+      ({ s with store := store', cur := ax' }, none)
+    else (s, some .valueError)
+
+def step (cfg : Cfg) (s : State) (op : Op) : State × Option Err :=
+  let ax := s.cur
+  let t0 := sget s.store ax.t0
+  let dt := sget s.store ax.dt
+  match op with
+  | .addS v => shiftOp cfg s 1 none (convScalar ax.unit v) 0
+  | .subS v => shiftOp cfg s (-1) none (convScalar ax.unit v) 0
+  | .addR r =>
+    let vals := convRamp ax.unit r
+    match rampStep vals with
+    | .error e => (s, some e)
+    | .ok d => shiftOp cfg s 1 (some vals) (vals.headD 0) d
+  | .subR r =>
+    let vals := convRamp ax.unit r
+    match rampStep vals with
+    | .error e => (s, some e)
+    | .ok d => shiftOp cfg s (-1) (some vals) (vals.headD 0) d
+  | .mul k =>
+    if cfg.mulStale then
+      let samples := ax.samples.map (· * k)
+      let dt' := dt * k
+      let (store', ax') :=
+        if cfg.shareAttrs then (s.store.set ax.dt dt', ax)
+        else (s.store ++ [dt'], { ax with dt := s.store.length })
+      if k = 0 then ({ s with store := store', cur := { ax' with samples := samples } }, some .zeroDivisionError)
+      else ({ s with store := store', cur := { ax' with samples := samples, rate := F64.fdiv ax.rate (F64.ofInt k) } }, none)
+    else if k = 0 then (s, some .valueError)
+    else
+      let (store', ax') := setSampling s.store (ax.samples.map (· * k)) ax.unit ax.rate (t0 * k) (dt * k)
+      ({ s with store := store', cur := ax' }, none)
+  | .div k =>
+    if cfg.noIdiv then (s, some .attributeError)
+    else if k = 0 ∨ t0 % k ≠ 0 ∨ dt % k ≠ 0 then (s, some .valueError)
+    else
+      let (store', ax') := setSampling s.store (ax.samples.map (· / k)) ax.unit ax.rate (t0 / k) (dt / k)
+      ({ s with store := store', cur := ax' }, none)
+  | .slice a b c =>
+    if c = 0 then (s, some .valueError)
+    else
+      let (start, _, cnt) := sliceIndices ax.samples.length a b c
+      let samples := sliceSamples ax.samples start c cnt
+      if cfg.sliceInherit then
+        let (store', ax') := inheritAttrs cfg s.store ax samples
+        ({ s with store := store', cur := ax' }, none)
+      else
+        let (store', ax') := setSampling s.store samples ax.unit ax.rate (t0 + start * dt) (dt * c)
+        ({ s with store := store', cur := ax' }, none)
+  | .copy =>
+    let (store', ax') := inheritAttrs cfg s.store ax ax.samples
+    ({ store := store', cur := ax', kept := ax :: s.kept }, none)
+  | .convert u =>
+    -- a new axis built by the constructor from the attributes of the old one: same instants,
+    -- new label, rate (already in Hz) carried over
+    let n : Int := ax.samples.length
+    let i := s.store.length
+    ({ store := s.store ++ [t0, dt, n * dt],
+       cur := { samples := affine t0 dt ax.samples.length,
+                unit := u, t0 := i, dt := i + 1, dur := i + 2, rate := ax.rate },
+       kept := ax :: s.kept }, none)
+  | .setitem => (s, some .valueError)
+
+def run (cfg : Cfg) (ops : List Op) (s : State) : State := ops.foldl (fun s op => (step cfg s op).1) s
+
+/-- `index_at(t)` for one instant (ps): range check against the attributes, floor division -/
+def indexAt (store : List Int) (ax : Axis) (t : Int) : Except Err Int :=
+  let t0 := sget store ax.t0
+  if t < t0 ∨ t ≥ t0 + sget store ax.dur then .error .valueError
+  else .ok (Int.fdiv (t - t0) (sget store ax.dt))
+
+/-! ### abstract specification -/
+structure Abs where
+  t0 : Int
+  dt : Int
+  n : Nat
+  unit : TimeUnit
+  deriving Repr, DecidableEq
+
+def absSamples (a : Abs) : List Int := affine a.t0 a.dt a.n
+
+def absStep (a : Abs) : Op → Abs
+  | .addS v => { a with t0 := a.t0 + convScalar a.unit v }
+  | .subS v => { a with t0 := a.t0 - convScalar a.unit v }
+  | .addR r =>
+    let vals := convRamp a.unit r
+    match rampStep vals with
+    | .ok d => if vals.length = a.n then { a with t0 := a.t0 + vals.headD 0, dt := a.dt + d } else a
+    | .error _ => a
+  | .subR r =>
+    let vals := convRamp a.unit r
+    match rampStep vals with
+    | .ok d => if vals.length = a.n then { a with t0 := a.t0 - vals.headD 0, dt := a.dt - d } else a
+    | .error _ => a
+  | .mul k => if k = 0 then a else { a with t0 := a.t0 * k, dt := a.dt * k }
+  | .div k => if k = 0 ∨ a.t0 % k ≠ 0 ∨ a.dt % k ≠ 0 then a else { a with t0 := a.t0 / k, dt := a.dt / k }
+  | .slice x y c =>
+    if c = 0 then a else
+      let (start, _, cnt) := sliceIndices a.n x y c
+      { a with t0 := a.t0 + start * a.dt, dt := a.dt * c, n := cnt }
+  | .copy => a
+  | .convert u => { a with unit := u }
+  | .setitem => a
+
+/-- the abstraction function: what the attributes of the current axis say -/
+def abs (s : State) : Abs :=
+  { t0 := sget s.store s.cur.t0, dt := sget s.store s.cur.dt, n := s.cur.samples.length, unit := s.cur.unit }
+
+/-- a well-formed initial state for `(t0, Δ, n)` -/
+def initState (u : TimeUnit) (t0 dt : Int) (n : Nat) : State :=
+  { store := [t0, dt, (n : Int) * dt],
+    cur := { samples := affine t0 dt n, unit := u,
+             t0 := 0, dt := 1, dur := 2, rate := rateOf u dt },
+    kept := [] }
+
+/-! ### line protocol -/
+open Proto
+
+def parseOptInt? (s : String) : Option (Option Int) :=
+  if s = "n" then some none else s.toInt?.map some
+
+def parseOp? (s : String) : Option Op :=
+  match s.splitOn ":" with
+  | ["as", "i", k] => k.toInt?.map fun k => .addS (.int k)
+  | ["as", "t", k] => k.toInt?.map fun k => .addS (.time k)
+  | ["ss", "i", k] => k.toInt?.map fun k => .subS (.int k)
+  | ["ss", "t", k] => k.toInt?.map fun k => .subS (.time k)
+  | ["ar", "i", xs] => (parseIntList? xs).map fun xs => .addR (.ints xs)
+  | ["ar", "t", xs] => (parseIntList? xs).map fun xs => .addR (.time xs)
+  | ["sr", "i", xs] => (parseIntList? xs).map fun xs => .subR (.ints xs)
+  | ["sr", "t", xs] => (parseIntList? xs).map fun xs => .subR (.time xs)
+  | ["mu", k] => k.toInt?.map .mul
+  | ["dv", k] => k.toInt?.map .div
+  | ["sl", a, b, c] => do
+    let a ← parseOptInt? a
+    let b ← parseOptInt? b
+    let c ← c.toInt?
+    pure (.slice a b c)
+  | ["cp"] => some .copy
+  | ["cv", u] => (TimeUnit.ofString? u).map .convert
+  | ["st"] => some .setitem
+  | _ => none
+
+def showAxis (store : List Int) (ax : Axis) : String :=
+  let looks := ax.samples.map fun t => match indexAt store ax t with
+    | .ok i => toString i
+    | .error _ => "e"
+  s!"{ax.unit.name}:{sget store ax.t0}:{sget store ax.dt}:{sget store ax.dur}:{hex64 (F64.toBits ax.rate)}:{showIntList ax.samples}:{joinList looks}"
+
+def showState (s : State) (e : Option Err) (a : Abs) : String :=
+  let out := match e with | none => "ok" | some e => e.name
+  let axes := (s.cur :: s.kept).map (showAxis s.store)
+  s!"{out}|{a.t0},{a.dt},{a.n},{a.unit.name}|" ++ "|".intercalate axes
+
+/-- the whole history: state after construction and after every operation -/
+def trace (cfg : Cfg) (s : State) (a : Abs) (ops : List Op) : List String :=
+  match ops with
+  | [] => []
+  | op :: rest =>
+    let (s', e) := step cfg s op
+    let a' := absStep a op
+    showState s' e a' :: trace cfg s' a' rest
+
+def handle (args : List String) : String :=
+  match args with
+  | [mode, u, t0, dt, n, ops] =>
+    match TimeUnit.ofString? u, t0.toInt?, dt.toInt?, n.toNat?,
+          (if ops = "-" then some [] else (ops.splitOn ";").mapM parseOp?) with
+    | some u, some t0, some dt, some n, some ops =>
+      let s := initState u t0 dt n
+      let a : Abs := ⟨t0, dt, n, u⟩
+      let tr (cfg : Cfg) := "ok " ++ ";".intercalate (showState s none a :: trace cfg s a ops)
+      if mode = "run" then tr fixed
+      else if mode = "runcur" then tr current
+      else if mode = "both" then tr fixed ++ " ## " ++ tr current
+      else "bad-op"
+    | _, _, _, _, _ => "bad-op"
+  | _ => "bad-op"
 
 end Nitime.C17
